@@ -221,6 +221,11 @@ impl UnixTerminal {
         ])
         .unwrap_or(()); // ignore write errors
 
+        // disable signal handler and forget signals flagged so far, a termination signal
+        // that has not been reported yet must not cut the wait for the epilogue short
+        self.signal_delivery.handle().close();
+        self.signal_delivery.pending().for_each(drop);
+
         // wait for device attributes report or error
         loop {
             match self.poll(Some(Duration::from_secs(1))) {
@@ -228,9 +233,6 @@ impl UnixTerminal {
                 _ => {}
             }
         }
-
-        // disable signal handler
-        self.signal_delivery.handle().close();
 
         // restore terminal settings
         rustix::termios::tcsetattr(
